@@ -12,7 +12,7 @@ R-EMPTY join workers: the empty branch runs exactly under `allow_empty and <no r
 import ast
 
 from .. import AnalysisError
-from ..flow import view_of
+from ..flow import view_of, untag
 from ..guards import Conds, Universe, to_formula, f_and, show, literals, TRUE
 from ..model import U
 from ..paths import enumerate_paths, symexec
@@ -47,7 +47,7 @@ def check_dropna(ctx):
         if ok and 'thresh' in kws:
             ok, why = False, 'dropna thresh given'
         if ok:
-            recv = c.func.value
+            recv = untag(view.expand(c.func.value, view.stmt_of(c)))
             ok = U(recv) == '%s[%s]' % (df_p, proj_p)
             why = 'dropna is applied to `%s`, not to the projection %s[%s]' % (U(recv), df_p, proj_p)
         if ok and flag_p:
@@ -65,7 +65,7 @@ def check_dropna(ctx):
         okr = okr and isinstance(e, ast.Attribute) and e.attr == 'values' and isinstance(e.value, ast.Name)
         if okr:
             ds = view.reaching(e.value.id, r)
-            texts = sorted(set(U(d.value) for d in ds if d.value is not None))
+            texts = sorted(set(U(untag(view.expand(d.value, d.node))) if d.node is not None else U(d.value) for d in ds if d.value is not None))
             okr = len(ds) >= 1 and all('%s[%s]' % (df_p, proj_p) in t for t in texts)
     ctx.check('R-MISS/dropna', f, 'values', okr, 'the array is not `.values` of the projected (and cleaned) frame', f.node,
               sample='.values of the projected frame')
@@ -143,12 +143,35 @@ def _domain(view, it, stmt):
         e = e.func.value
     if isinstance(e, ast.Name):
         return e.id, 'all', None, idx_false
-    if isinstance(e, ast.Subscript) and isinstance(e.value, ast.Name) and isinstance(e.slice, ast.Call):
+    if isinstance(e, ast.Subscript) and isinstance(e.value, ast.Attribute) and e.value.attr == 'loc':
+        e = ast.Subscript(value=e.value.value, slice=e.slice, ctx=ast.Load())
+    if isinstance(e, ast.Subscript) and isinstance(e.value, ast.Name):
         m = e.slice
-        fn = U(m.func)
-        kind = {'pd.isnull': 'missing', 'pd.isna': 'missing', 'pd.notnull': 'present', 'pd.notna': 'present'}.get(fn)
-        if kind and len(m.args) == 1 and isinstance(m.args[0], ast.Subscript) and U(m.args[0].value) == e.value.id:
-            return e.value.id, kind, U(m.args[0].slice), idx_false
+        flip = False
+        while isinstance(m, ast.UnaryOp) and isinstance(m.op, ast.Invert):
+            m, flip = m.operand, not flip
+        kind = col = None
+        if isinstance(m, ast.Call):
+            fn = U(m.func)
+            kind = {'pd.isnull': 'missing', 'pd.isna': 'missing', 'pd.notnull': 'present', 'pd.notna': 'present'}.get(fn)
+            if kind and len(m.args) == 1:
+                col = m.args[0]
+            elif isinstance(m.func, ast.Attribute) and m.func.attr in ('isnull', 'isna', 'notnull', 'notna') and not m.args:
+                kind = 'missing' if m.func.attr in ('isnull', 'isna') else 'present'
+                col = m.func.value
+        if kind and isinstance(col, ast.Subscript) and U(col.value) == e.value.id:
+            if flip:
+                kind = 'present' if kind == 'missing' else 'missing'
+            return e.value.id, kind, U(col.slice), idx_false
+    if isinstance(e, ast.Call) and isinstance(e.func, ast.Attribute) and e.func.attr == 'dropna' and isinstance(e.func.value, ast.Name):
+        # rows without a missing value in the `subset` columns; without subset: in ANY column
+        kws = {k.arg: k.value for k in e.keywords}
+        sub = kws.get('subset')
+        if sub is None:
+            return e.func.value.id, 'present', '<any column>', idx_false
+        if isinstance(sub, (ast.List, ast.Tuple)) and len(sub.elts) == 1:
+            return e.func.value.id, 'present', U(sub.elts[0]), idx_false
+        return e.func.value.id, 'present', U(sub), idx_false
     return None
 
 
@@ -359,7 +382,9 @@ def check_index_empty(ctx):
             cnt = lens[0].left
             ref = to_formula(parse_expr('%s and %s == 0' % (flag, U(cnt))))
             ok = Universe(int_atoms=lambda a_: True).equivalent(c, ref) is None and 'tokenize(' in U(cnt) and 'self.index_attr' in U(cnt)
-        ctx.check('R-EMPTY/index', b, 'empty_records', ok and U(a.value.args[0]) == 'row_id',
+        from .once import _discover_counter
+        rid = _discover_counter(b, view, 'self.table') or 'row_id'
+        ctx.check('R-EMPTY/index', b, 'empty_records', ok and U(a.value.args[0]) == rid,
                   'a row is recorded as empty under `%s`, expected exactly `%s and <its token count> == 0`, recording row_id'
                   % (show(c)[:120], flag), a, sample=show(c)[:120])
         rets = [n for n in walk_own(b.node) if isinstance(n, ast.Return)]
